@@ -979,11 +979,13 @@ func FromV3SchemaRef(schema *openapi3.SchemaRef, components *openapi3.Components
 		v2Schema.Discriminator = d.PropertyName
 	}
 	if schema.Value.PermitsNull() {
-		schema.Value.Nullable = false
-		if schema.Value.Extensions == nil {
-			v2Schema.Extensions = make(map[string]any)
+		// said with an extension in OpenAPI 2; the OpenAPI 3 document stays as the caller gave it
+		extensions := make(map[string]any, len(schema.Value.Extensions)+1)
+		for k, v := range schema.Value.Extensions {
+			extensions[k] = v
 		}
-		v2Schema.Extensions["x-nullable"] = true
+		extensions["x-nullable"] = true
+		v2Schema.Extensions = extensions
 	}
 
 	return &openapi2.SchemaRef{
